@@ -478,11 +478,8 @@ func parentMain() int {
 			broken = append(broken, "inconclusive: "+why)
 		}
 	}
-	if len(results) != n {
-		broken = append(broken, fmt.Sprintf("only %d of %d cases produced a result", len(results)+len(died), n))
-		if len(results)+len(died) == n && p.DiedIsViolation {
-			broken = broken[:len(broken)-1]
-		}
+	if len(results)+len(died) != n {
+		broken = append(broken, fmt.Sprintf("only %d of %d cases are accounted for (%d results, %d child deaths)", len(results)+len(died), n, len(results), len(died)))
 	}
 	if n > 0 && inconclusive*50 > n {
 		broken = append(broken, fmt.Sprintf("%d of %d cases inconclusive (> 2%%): %v", inconclusive, n, inconclNotes))
